@@ -154,6 +154,7 @@ type Exec struct {
 	loopFrames map[int]map[string]loopFrame
 	aliasOf  map[string][]aliasEdge // ownership tracking: a phi's array is one of its incoming arrays
 	curBlock *ssa.BasicBlock
+	curInstr ssa.Instruction // top frame: the instruction being executed (for naming locals at sites)
 	prov     map[string]string // reference term -> "fresh" | "owned"
 	havockedAll bool
 	inAtomic  bool
@@ -1108,6 +1109,9 @@ func (e *Exec) runFrame(fr *Frame, st0 *State) {
 				}
 				fr.vals[phi] = pv
 			}
+			if fr.top {
+				e.curBlock, e.curInstr = b, nil
+			}
 			if li != nil {
 				st = e.cutLoop(fr, li, st)
 				if st == nil {
@@ -1122,6 +1126,9 @@ func (e *Exec) runFrame(fr *Frame, st0 *State) {
 		for _, in := range b.Instrs {
 			if _, ok := in.(*ssa.Phi); ok {
 				continue
+			}
+			if fr.top {
+				e.curInstr = in
 			}
 			if !e.execInstr(fr, st, in) {
 				alive = false
